@@ -228,7 +228,7 @@ def sums(k):
 
 def run(run):
     thorough = run.tier == "thorough"
-    S = strings()
+    S = strings(4, 3) if thorough else strings()
     terms = [{"t": [c, s]} for s in S for c in (COEFS if thorough or len(s) <= 2 else COEFS[:2])]
     terms += [{"t": [0, {"1": "X"}]}, {"t": [0, {}]}]
     sms = [{"s": s} for s in sums(3 if thorough else 2)]
